@@ -20,9 +20,56 @@ ADJ = B + 'adjust_known_offsets'
 BOX_PATHS = ['/moov/trak/mdia/minf/stbl/stco', '/moov/trak/mdia/minf/stbl/co64', '/meta/iloc', '/moof/traf/tfhd', '/mfra/tfra', '/moov/trak/mdia/minf/stbl/saio']
 
 
+def _base_stream(s):
+    """underlying stream term of take()/into_inner()/by_ref() adaptors"""
+    while True:
+        m = re.match(r'^(Read::take|Take::into_inner|Read::by_ref)\((.*)$', s)
+        if not m:
+            return s
+        rest, depth, out = m.group(2), 0, ''
+        for ch in rest:
+            if ch in '([{':
+                depth += 1
+            elif ch in ')]}':
+                if depth == 0:
+                    break
+                depth -= 1
+            if ch == ',' and depth == 0:
+                break
+            out += ch
+        s = out
+
+
+def positioned_copies(ctx, prog, T):
+    """D5: every verbatim copy (std::io::copy) in the asset handlers reads from a source whose position was established on every path to it:
+    a rewind / seek / stream_position / earlier copy on the SAME stream, or a freshly built Cursor.  (42 sites; a copy after rewinding the wrong
+    stream drops or duplicates media bytes.)"""
+    n = 0
+    for name in prog.fns():
+        if 'asset_handlers' not in name:
+            continue
+        fn = prog.fn(name)
+        calls = list(fn.calls())
+        for bi, t in calls:
+            if t['fd'] != 'std::io::copy':
+                continue
+            n += 1
+            ctx.analysed(name, 1)
+            src = _base_stream(T.op_term(fn, t['args'][0]))
+            if src.startswith('Cursor::new('):
+                ctx.ob('C09-D5', name, 'io::copy from a fresh Cursor', 'position 0 by construction', True, site=loc(t['span']), nontrivial=False)
+                continue
+            pos = set(b2 for b2, t2 in calls if b2 != bi and t2['args'] and re.search(r'Seek::(rewind|seek|stream_position)$|^std::io::copy$', t2['fd']) and _base_stream(T.op_term(fn, t2['args'][0])) == src)
+            ok = bi not in fn.reachable(0, avoid=pos)
+            ctx.ob('C09-D5', name, 'io::copy(%s, ..)' % src[:40], 'source positioned on every path (rewind/seek/earlier copy on the same stream)', ok, site=loc(t['span']),
+                   detail='' if ok else 'the copy source %s is read from wherever it happens to stand' % src[:60])
+    ctx.floor('verbatim copy sites in the asset handlers', n, 35, rule='C09-D5')
+
+
 def run(ctx):
     prog = ctx.prog(('c2pa',))
     T = Terms(prog)
+    positioned_copies(ctx, prog, T)
     if not ctx.require(prog.has(ADJ), ADJ):
         return
     # ---- D1 callers
@@ -150,6 +197,37 @@ def run(ctx):
                 a, bb = T.op_term(fn, rv['a']), T.op_term(fn, rv['b'])
                 if re.search(r'read_u(32|64)|offset', a + bb) and not re.fullmatch(r'-?\d+', a) and not re.fullmatch(r'-?\d+', bb) and 'adjust' not in a + bb:
                     ordc += 1
+    # D6 direction: a negative shift is subtracted (by its absolute value), a positive one added -- at every site alike
+    neg_tests = []
+    for b_i, b in enumerate(fn.B):
+        for dst, rv in b['s']:
+            if rv['k'] == 'bin' and rv['op'] in ('Lt', 'Ge', 'Gt', 'Le') and b['t']['k'] == 'switch' and b['t']['d']['l'] == dst['l']:
+                a, bb = T.op_term(fn, rv['a']), T.op_term(fn, rv['b'])
+                zero = [x for v, x in b['t']['ts'] if v == 0]
+                if not zero:
+                    continue
+                t_true, t_false = b['t']['o'], zero[0]
+                if a == 'adjust' and bb == '0' and rv['op'] in ('Lt', 'Ge'):
+                    neg_tests.append((b_i, t_true, t_false) if rv['op'] == 'Lt' else (b_i, t_false, t_true))      # (block, target when adjust < 0, target when adjust >= 0)
+                elif a == '0' and bb == 'adjust' and rv['op'] in ('Gt', 'Le'):
+                    neg_tests.append((b_i, t_true, t_false) if rv['op'] == 'Gt' else (b_i, t_false, t_true))
+    ndir = 0
+    for b_i, b in enumerate(fn.B):
+        for dst, rv in b['s']:
+            if rv['k'] == 'bin' and rv['op'] in ('AddWithOverflow', 'SubWithOverflow', 'Add', 'Sub'):
+                a, bb = T.op_term(fn, rv['a']), T.op_term(fn, rv['b'])
+                if 'adjust' in a + bb and re.search(r'read_u(32|64)|offset', a + bb):
+                    sub = rv['op'].startswith('Sub')
+                    doms = [(c, tn, tp) for c, tn, tp in neg_tests if fn.dominates(c, b_i)]
+                    if not doms:
+                        continue
+                    c, tn, tp = max(doms, key=lambda x: x[0])
+                    want = tn if sub else tp
+                    other = tp if sub else tn
+                    ok = fn.dominates(want, b_i) and b_i not in fn.reachable(other, avoid=(c,))
+                    ndir += 1
+                    ctx.ob('C09-D6', ADJ, 'entry %s |adjust|' % ('-' if sub else '+'), 'on the %s edge of `adjust < 0`' % ('true' if sub else 'false'), ok, site='block %d' % b_i, detail='%s(%s, %s)' % (rv['op'], a[:40], bb[:40]))
+    ctx.floor('shift sites under an `adjust < 0` test', ndir, 8, rule='C09-D6')
     ctx.floor('offset shift sites (entry +/- adjust)', shifts, 8, rule='C09-D3')
     ctx.ob('C09-D3', ADJ, 'shift of a stored file offset', 'applied only to offsets addressing bytes after the manifest (the entry is compared with a position before it is shifted)',
            shifts > 0 and (guarded == shifts or ordc >= shifts), detail='%d shift sites, %d guarded by a comparison of the entry, %d ordered comparisons of offsets; parameters: %s' % (shifts, guarded, ordc, params), site=loc(fn.d['span']))
@@ -182,6 +260,21 @@ def run(ctx):
         hdr = [tt for bi, tt in nes if 'Chunk::id(' not in tt and rid and tt.endswith(',%s)' % rid) and 'ChunkId(' in tt]
         ctx.ob('C09-D4', wn, 'chunks after the primary RIFF chunk', 'a header id equal to the RIFF id (the constant of the top-level check) is recognised and copied', bool(rid) and bool(hdr),
                detail='top-level id constant %s; header comparisons with it: %d' % (rid, len(hdr)))
+    # GIF: the global colour table is present iff the flag of the logical screen descriptor is set; every site that consumes the table (skip_preamble
+    # decides where the manifest block is inserted, next_block_hint drives the block iterator) must decide it on the flag
+    gsites = 0
+    for n2 in prog.fns():
+        if 'gif_io' not in n2:
+            continue
+        f2 = prog.fn(n2)
+        eff = set(bi for bi, t in f2.calls() if t['fd'].endswith('GlobalColorTable::from_stream'))
+        if not eff:
+            continue
+        gsites += 1
+        ctx.analysed(n2, len(list(f2.calls())))
+        gflag = oblig.TermGuard(T, r'(^|\.)global_color_table_flag$', 'true', name='global_color_table_flag is set')
+        oblig.effect_requires(ctx, 'C09-D7', f2, 'GlobalColorTable::from_stream', lambda bi, b, _e=eff: bi in _e, [gflag])
+    ctx.floor('GIF functions that consume the global colour table', gsites, 2, rule='C09-D7')
     # inject_c2pa copies every child it does not replace: each recursion result is pushed
     inj = 'asset_handlers::riff_io::inject_c2pa'
     if ctx.require(prog.has(inj), inj):
